@@ -19,6 +19,7 @@ static void honest_gen(Plan *p, uint64_t run_seed, uint64_t variant, int tier)
 	if (rng_chance(&g, 1, 4)) p->cred_mode |= 1;
 	if (!p->mutual && rng_chance(&g, 1, 4)) p->cred_mode |= 4;
 	if (rng_chance(&g, 1, 3)) p->cred_mode |= 8;       /* 8 = the TLS_CONNECT objects are re-used, not fresh */
+	if (p->mutual && rng_chance(&g, 1, 6)) p->cred_mode = (p->cred_mode & ~1) | 128;      /* 128 = the client's leaf alone is larger than the server's chain */
 	if (p->proto != P_TLS13 && rng_chance(&g, 1, 8)) p->cred_mode |= 32;     /* 32 = one entropy draw fails during a data write and the application writes again */
 	if (rng_chance(&g, 1, 8)) p->cred_mode = (p->cred_mode & ~1) | 16;     /* 16 = chains of the largest admissible size, minus (plan_seed mod 10) bytes */
 }
@@ -78,6 +79,10 @@ static void honest_run(const Plan *p, RunResult *r)
 {
 	static HonestOut o;
 	const CredSet *cs = (p->cred_mode & 1) ? creds_get_eku((int)p->depth, p->proto == P_TLCP) : creds_get((int)p->depth, p->proto == P_TLCP);
+	if ((p->cred_mode & 128) && p->mutual) {
+		const CredSet *bc = creds_get_bigclient((int)p->depth, p->proto == P_TLCP);
+		if (bc->ok) cs = bc;
+	}
 	if (p->cred_mode & 16) {
 		const CredSet *mx = creds_get_max((int)p->depth, p->proto == P_TLCP, (int)((uint64_t)p->plan_seed % 10));
 		if (mx) cs = mx;
